@@ -1259,6 +1259,29 @@ func (w *Walker) impliedFacts(fr *Frame, cf CallFact, depth int) []FactT {
 			for _, ft := range w.exitFacts(nfr, xb, depth+1) {
 				m[ft.String()] = ft
 			}
+			// `return f(...)` with outcome err==nil: f returned nil (and what that implies)
+			if cf.Outcome == "err==nil" && depth < 4 {
+				if r, ok := xb.Instrs[len(xb.Instrs)-1].(*ssa.Return); ok && len(r.Results) > 0 {
+					var rc *ssa.Call
+					switch y := r.Results[len(r.Results)-1].(type) {
+					case *ssa.Call:
+						rc = y
+					case *ssa.Extract:
+						rc, _ = y.Tuple.(*ssa.Call)
+					}
+					if rc != nil {
+						sig := rc.Common().Signature()
+						if n := sig.Results().Len(); n > 0 && isErrorType(sig.Results().At(n-1).Type()) {
+							ct := canon(&Term{Op: "call", Name: callName(rc), Args: w.ts.callArgs(rc, nfr, 0, nil)})
+							ft := FactT{Text: ct.LooseString() + " : err==nil", Holds: true, Where: rc.Pos()}
+							m[ft.String()] = ft
+							for _, ft := range w.impliedFacts(nfr, CallFact{Call: rc, Outcome: "err==nil"}, depth+1) {
+								m[ft.String()] = ft
+							}
+						}
+					}
+				}
+			}
 			// a boolean function returning an expression: `return a.Equals(b)` with outcome true
 			if (cf.Outcome == "true" || cf.Outcome == "false") && len(exits) >= 1 {
 				r := xb.Instrs[len(xb.Instrs)-1].(*ssa.Return)
